@@ -275,6 +275,10 @@ type Run struct {
 	Assume    []string
 	Extra     map[string]any
 	harnessErr []string
+	workers   []*Worker
+	progress  atomic.Int64
+	// Describe turns a Worker.Cur value into a replayable case.
+	Describe func(cur any) (Case, bool)
 }
 
 func NewRun(prop string) *Run {
@@ -298,6 +302,7 @@ func NewRun(prop string) *Run {
 	}
 	r.Deadline = r.Start.Add(lim)
 	r.Regen = os.Getenv("VERIF_REGEN") != ""
+	go r.watchdog()
 	return r
 }
 
@@ -338,11 +343,73 @@ type Worker struct {
 	r                            *Run
 	Evals, States, Trans, Nontriv int64
 	hist                         map[string]int64
+	// Cur is set by a check just before it calls into the library, so that a
+	// call that never returns can be reported with its input.
+	Cur    any
+	active atomic.Bool
 }
 
-func (r *Run) Worker() *Worker { return &Worker{r: r, hist: map[string]int64{}} }
+func (r *Run) Worker() *Worker {
+	w := &Worker{r: r, hist: map[string]int64{}}
+	r.mu.Lock()
+	r.workers = append(r.workers, w)
+	r.mu.Unlock()
+	return w
+}
+
+// watchdog: if no shard completes for StallS seconds while a worker is still
+// inside a shard, a library call is not returning (expected cost of a call
+// is microseconds). The stuck inputs are reported as violations.
+func (r *Run) watchdog() {
+	stall := 300
+	if v := os.Getenv("VERIF_STALL_S"); v != "" {
+		if s, err := strconv.Atoi(v); err == nil {
+			stall = s
+		}
+	}
+	last := r.progress.Load()
+	lastT := time.Now()
+	for {
+		time.Sleep(2 * time.Second)
+		p := r.progress.Load()
+		if p != last {
+			last, lastT = p, time.Now()
+			continue
+		}
+		if time.Since(lastT) < time.Duration(stall)*time.Second {
+			continue
+		}
+		r.mu.Lock()
+		var stuck []*Worker
+		for _, w := range r.workers {
+			if w.active.Load() {
+				stuck = append(stuck, w)
+			}
+		}
+		r.mu.Unlock()
+		if len(stuck) == 0 {
+			lastT = time.Now()
+			continue
+		}
+		for _, w := range stuck {
+			if r.Describe != nil && w.Cur != nil {
+				if c, ok := r.Describe(w.Cur); ok {
+					r.Fail("call-did-not-return", func() (Case, string, string) {
+						return c, "the call returns", fmt.Sprintf("no return within %d s", stall)
+					})
+				}
+			}
+		}
+		r.Cap("a library call did not return; enumeration abandoned")
+		if r.NumViolations() == 0 && !r.Regen {
+			// known hang or undescribed: still not exhaustive
+		}
+		r.Finish()
+	}
+}
 func (w *Worker) Outcome(s string) { w.hist[s]++ }
 func (w *Worker) Flush() {
+	w.r.progress.Add(1)
 	w.r.Evals.Add(w.Evals)
 	w.r.States.Add(w.States)
 	w.r.Trans.Add(w.Trans)
@@ -373,6 +440,8 @@ func (r *Run) ParFor(n int, fn func(i int, w *Worker)) {
 		go func() {
 			defer wg.Done()
 			w := r.Worker()
+			w.active.Store(true)
+			defer w.active.Store(false)
 			defer w.Flush()
 			for {
 				i := int(next.Add(1) - 1)
@@ -384,6 +453,7 @@ func (r *Run) ParFor(n int, fn func(i int, w *Worker)) {
 					return
 				}
 				fn(i, w)
+				r.progress.Add(1)
 			}
 		}()
 	}
